@@ -230,3 +230,34 @@ CHECKS = {
         "assumptions": ASSUME_SYSTEM + ["real parallel execution of whole relay tasks on tokio's multi-thread scheduler is not covered: flows share no mutable state besides the salt cache (shuttle) and the UDP cipher cache", "the datagram cipher cache is covered at thread level by the Miri part (3 threads, real SessionCodec, seeded scheduler): aliasing violations and data races, not functional interleavings of whole sessions"],
     },
 }
+
+
+# parts added in rounds f-h of the seeded-change evaluation (DESIGN.md 9.7); listed with the assumptions so that every
+# evidence file says what its check contains
+ADDED = {
+    "C02": ["a quarter of the target sets are neighbouring addresses (targets that differ in one bit of port or address, or swap bytes between them)",
+            "Trojan carriers: replies of 65494-65507 bytes, which no SOCKS5-UDP datagram can hold, may be dropped; the replies that follow arrive unharmed"],
+    "C03": ["a third of the stream plans travel over the ws carrier with the reference peer speaking WebSocket (third-party tokio-websockets on the harness side) and cutting messages where it likes",
+            "a quarter of the stream plans are slow starters (first byte 31-50 s after the handshake / the request); the reference judges a timestamp against the clock of the moment it arrives"],
+    "C04": ["tls-* families: the link node terminates TLS on both sides (it holds the simulated certificate's key) and forwards every piece as TLS record(s) of its own: single cuts exhaustively, multi-cuts, byte at a time",
+            "ws-merge: merged messages of bulk transfers, up to a few hundred KiB in one message"],
+    "C05": ["cross-connection splice (2022 both directions, VMess responses): the first connection's stream is withheld from its receiver and given to a later connection of the same client, whole and cut",
+            "generator C05ustream: VMess datagram frames in one stream from the reference client, one bit flipped at every byte position; what reaches the target is a prefix of what was sent (VMess chunk padding is unauthenticated by design, so 'nothing behind the flipped byte' is not demanded there)"],
+    "C06": ["a third of the multi-user tables give two users the same name; a fifth hold only keys that do not fit the cipher (the server refuses to start, or must still refuse the holder of the server key alone)",
+            "user B's datagram with user A's exact session id must not leave through A's association socket"],
+    "C07": ["well-formed authenticated datagram sessions with sparse packet ids (starts near the ring boundaries of the replay window, jumps of every size class, stragglers), from the reference client and from the hostile server, whose session id keeps changing"],
+    "C08": ["descriptor exhaustion is a window during which a drawn subset of accept / connect / datagram bind / file open fails with EMFILE for one node (file opens through an open() interposition in the harness binary) while ordinary flows are attempted",
+            "one plan in three is a cold start: the faults are the first thing the freshly started client and server see, no flow before them"],
+    "C09": ["3 % of the C09 plans are crowds: 40-160 (thorough 400) small flows that all stay open for 100 simulated seconds",
+            "C09sid: the target answers every datagram twice (at once and 45 ms later); the late answers must reach the session's owner and nothing of them the other user",
+            "the Miri engine is built with the seam's fixed wall clock; only diagnosed failures (undefined behaviour, data race, panic, datagram lost in the round trip) are violations"],
+    "C10": ["requests whose authenticated beginning (VMess auth id, 2022 salt + fixed header) arrives in time and whose rest arrives 3-200 s later: refused when the token has run out by the time the header / request is complete, served when it is valid at both moments (not valid yet at the beginning: nothing demanded)",
+            "mis-typed / stale / unbound responses are delivered whole and cut behind the first flight and at drawn places"],
+    "C13": ["one plan in eight performs its handshakes while 20-140 (thorough 300) other tunnels through the same client are open and stay open"],
+    "C14": ["delimiter bytes of the carrying formats (CR LF, NUL, ':', '/', ' ', '@', '?', '#') inside SOCKS5 names, and ports made of them (0x0d0a, 0x0a0d, ...)"],
+    "C15": ["in a quarter of the plans one to three applications leave a local handshake unfinished (partial SOCKS5 / HTTP / TLS-looking bytes, then close or stay): released at the client's 30 s handshake deadline at the latest",
+            "QUIC over a lossy datagram link: the release measurement waits (bounded, 120 s) for quinn's own idle / closing timers, the notification slack is 75 s"],
+    "C16": ["configurations with several entries: a tcp entry and a udp entry on one port, a Trojan entry and a Shadowsocks udp entry on one port, two ports, the client's index"],
+}
+for _k, _v in ADDED.items():
+    CHECKS[_k]["assumptions"] = list(CHECKS[_k]["assumptions"]) + _v
